@@ -716,6 +716,18 @@ pub fn parse_props(rd: &mut Rd<'_>, ctx: Ctx) -> R<Vec<Prop>> {
     let sec = rd.take(len)?;
     let mut r = Rd::new(sec);
     let mut out: Vec<Prop> = Vec::new();
+    let res = parse_props_inner(&mut r, ctx, &mut out);
+    rd.gray |= r.gray;
+    match res {
+        Ok(()) => Ok(out),
+        Err(mut e) => {
+            e.intrinsic = true;
+            Err(e)
+        }
+    }
+}
+
+fn parse_props_inner(r: &mut Rd<'_>, ctx: Ctx, out: &mut Vec<Prop>) -> R<()> {
     while !r.done() {
         let id = r.u8()?;
         let Some(kind) = prop_kind(id) else {
@@ -742,8 +754,7 @@ pub fn parse_props(rd: &mut Rd<'_>, ctx: Ctx) -> R<Vec<Prop>> {
         };
         out.push(Prop { id, v });
     }
-    rd.gray |= r.gray;
-    Ok(out)
+    Ok(())
 }
 
 struct Props(Vec<Prop>, bool);
@@ -893,7 +904,7 @@ pub fn decode_publish_header(
             }
             Ok(Some((p, hdr, gray)))
         }
-        Err(e) if e.class == Rej::Overrun && truncated => Ok(None),
+        Err(e) if e.class == Rej::Overrun && truncated && !e.intrinsic => Ok(None),
         Err(e) => Err(e),
     }
 }
